@@ -170,6 +170,27 @@ class _Return(Exception):
         self.value = value
 
 
+class _Continue(Exception):
+    pass
+
+
+class _Break(Exception):
+    pass
+
+
+def _bind_target(t, v, env):
+    if isinstance(t, ast.Name):
+        env[t.id] = v
+    elif isinstance(t, (ast.Tuple, ast.List)):
+        v = list(v)
+        if len(v) != len(t.elts):
+            raise CannotEvaluate("unpack")
+        for tt, vv in zip(t.elts, v):
+            _bind_target(tt, vv, env)
+    else:
+        raise CannotEvaluate("target")
+
+
 def run_function(fn: ast.FunctionDef, env):
     """Interprets a small function body made of assignments to names, if/elif/else, return, pass and docstrings on the witness
     environment `env` (parameters already bound).  Anything else raises CannotEvaluate.  Returns the returned value (None without return)."""
@@ -199,6 +220,32 @@ def run_function(fn: ast.FunctionDef, env):
                 raise CannotEvaluate("assignment target")
             if isinstance(st, ast.If):
                 block(st.body if evaluate(st.test, env) else st.orelse)
+                continue
+            if isinstance(st, ast.For) and not st.orelse:
+                steps = 0
+                for item in list(evaluate(st.iter, env)):
+                    steps += 1
+                    if steps > 10000:
+                        raise CannotEvaluate("loop too long")
+                    _bind_target(st.target, item, env)
+                    try:
+                        block(st.body)
+                    except _Continue:
+                        continue
+                    except _Break:
+                        break
+                continue
+            if isinstance(st, ast.Continue):
+                raise _Continue()
+            if isinstance(st, ast.Break):
+                raise _Break()
+            if isinstance(st, ast.Expr) and isinstance(st.value, ast.Call) and isinstance(st.value.func, ast.Attribute) and isinstance(st.value.func.value, ast.Name) \
+                    and st.value.func.attr in ("append", "extend") and isinstance(env.get(st.value.func.value.id), list) and len(st.value.args) == 1 and not st.value.keywords:
+                v = evaluate(st.value.args[0], env)
+                getattr(env[st.value.func.value.id], st.value.func.attr)(v if st.value.func.attr == "append" else list(v))
+                continue
+            if isinstance(st, ast.AugAssign) and isinstance(st.target, ast.Name) and st.target.id in env and type(st.op) in _BIN:
+                env[st.target.id] = _BIN[type(st.op)](env[st.target.id], evaluate(st.value, env))
                 continue
             raise CannotEvaluate(f"statement {type(st).__name__}")
     try:
